@@ -2,7 +2,25 @@ import TTV.Model.Result
 import TTV.Model.ResC08
 import TTV.Spec.C08
 import TTV.Lemmas.DetailsStr
-/-! # C08 — result adapters deliver each call once (work in progress) -/
+import TTV.Generated.C08
+/-! # C08 — result adapters deliver each call once, at the richest protocol the target has
+
+Theorems over the tree model M-Res (`TTV/Model/Result.lean`): **every** adapter graph (any depth, any fan-out) built
+from `ExtendedToOriginalDecorator`, `TestResultDecorator`, `Tagger`, `ThreadsafeForwardingResult`,
+`MultiTestResult` over leaves of the flavours 2.6 / 2.7 / Twisted / extended / `testtools.TestResult` /
+`TextTestResult` / `TestByTestResult`, and **every** call history (no bound on length; well-formed or not
+unless stated).
+
+* `holds_model_partial` : the executable spec `Spec.C08.holds` is true of the model's trace (outside finding `tbtEmptyDetails`)
+* `C08_reach`           : each leaf has received a call list whose test events are the history's, seen through the adapters above it
+* `C08_forward`, `C08_forward_wf`, `C08_once_in_order` : the `startTest`/outcome/`stopTest` log of each leaf = the history's,
+                          once each, in order, degraded only by the fixed table
+* `C08_no_pass_from_fail` : the degradation never turns a failing outcome into a passing one
+* `C08_details_text`    : `_details_to_str` (modelled exactly) contains the stripped text of every non-empty text detail
+* `C08_tbt_partial`, `C08_tbt_times_tags`, `C08_tbt_table` : `TestByTestResult` — one callback per `stopTest` with test, status
+                          word, details, start/stop time and tags
+* `C08_finding_witness` : the model reproduces finding `tbtEmptyDetails`
+-/
 namespace TTV.Props.C08
 open TTV.Result TTV.ResC08 TTV.Spec.C08
 
@@ -979,5 +997,60 @@ theorem holds_model_partial (i : Input) (hc : tbtEmptyDetails i = false) : holds
     rw [hm]
     simp only [observe, LeafSt.calls, Bool.or_eq_true, beq_iff_eq]
     exact .inr this
+
+/-! ## nothing is dropped or duplicated -/
+/-- which call, for which test -/
+def sig : Call → Nat × Nat
+  | .startTest t => (0, t)
+  | .add _ t _ => (1, t)
+  | .stopTest t => (2, t)
+  | _ => (3, 0)
+
+/-- **C08 (once, in order).**  What any leaf is to receive is, event by event, the same kind of call
+(`startTest` / outcome / `stopTest`) for the same test as in the history: same length, same order. -/
+theorem C08_once_in_order (s : Shape) (evs : List Call) : ∀ l ∈ expect s evs, l.map sig = evs.map sig :=
+  expect_rel (fun l evs => l.map sig = evs.map sig) (fun _ => rfl)
+    (fun c l evs h => by
+      rw [h, List.map_map]
+      apply List.map_congr_left
+      intro x _; cases x <;> rfl) s evs
+
+/-! ## the status words in the code (tie 1) -/
+def methodName : Kind → String
+  | .success => "addSuccess" | .error => "addError" | .failure => "addFailure" | .skip => "addSkip"
+  | .xfail => "addExpectedFailure" | .uxsuccess => "addUnexpectedSuccess"
+def word : Kind → String
+  | .success => "success" | .error => "error" | .failure => "failure" | .skip => "skip"
+  | .xfail => "xfail" | .uxsuccess => "uxsuccess"
+
+/-- the status word each `TestByTestResult.add*` assigns in `/repo` (extracted on every run) is `tbtWord` -/
+theorem C08_tbt_table (k : Kind) :
+    (methodName k, word (tbtWord k)) ∈ TTV.Generated.C08.tbtStatusWords := by
+  cases k <;> decide
+
+/-! ## known finding and non-vacuity -/
+/-- the witness of finding `tbtEmptyDetails`: `addFailure(details={})` on a `TestByTestResult` -/
+def witness : Input :=
+  { shape := .tbt, hist := [.startTest 1, .add .failure 1 (.details []), .stopTest 1] }
+
+/-- inside the class the model reproduces the defect: the callback carries no details although `{}` was given -/
+theorem C08_finding_witness : tbtEmptyDetails witness = true ∧ cTbt witness (model witness) = false := by
+  decide
+
+/-- the forwarding clause is not vacuous: a skip and an unexpected success through
+`MultiTestResult(2.6-style, TestResult)` inside a `ThreadsafeForwardingResult` -/
+example :
+    (leaves (.tfr (.etod (.multi [.etod (.sink .py26), .etod (.tt false)])))
+      (run _ (init _) [.startTestRun, .startTest 1, .add .skip 1 (.reason ['r']), .stopTest 1,
+                        .startTest 2, .add .uxsuccess 2 .none, .stopTest 2])).map tlog
+    = [[.startTest 1, .add .success 1 .none, .stopTest 1, .startTest 2, .add .failure 2 (.exc .synth), .stopTest 2],
+       [.startTest 1, .add .skip 1 (.reason ['r']), .stopTest 1, .startTest 2, .add .uxsuccess 2 .none, .stopTest 2]] := by
+  decide
+
+example : inScope { shape := .tfr (.etod (.multi [.etod (.sink .py26), .etod (.tt false)])),
+                    hist := [.startTest 1, .add .skip 1 (.reason ['r']), .stopTest 1] } = true := by decide
+
+example : tbtExpect none none [.startTest 4, .add .uxsuccess 4 (.details [(['x'], .text ['y'])]), .stopTest 4]
+    = [(4, some .success, some [(['x'], .text ['y'])])] := rfl
 
 end TTV.Props.C08
